@@ -98,9 +98,13 @@ fn pair(ctx: &mut Ctx, a: &Item, b: &Item) {
     let nontrivial = a.t.bw() > 0 && b.t.bw() > 0;
     ctx.case(if nontrivial { Some(&line) } else { None });
     let sem = a.t == b.t && a.v == b.v;
-    ctx.count(&format!("reach:pair-{}-vs-{}", a.what, b.what));
+    if a.what == "fixed" || a.what == "replay" {
+        ctx.count(&format!("pair-{}-vs-{}", a.what, b.what));
+    } else {
+        ctx.count(&format!("reach:pair-{}-vs-{}", a.what, b.what));
+    }
     ctx.count(if sem { "reach:semantically-equal-pair" } else { "reach:semantically-different-pair" });
-    let mut rs = [false; 9];
+    let mut rs = [false; NR];
     routes_of(&a.e, &mut rs);
     routes_of(&b.e, &mut rs);
     for (i, x) in rs.iter().enumerate() {
@@ -272,7 +276,7 @@ fn one_pool(ctx: &mut Ctx, t: &Ty, v: &V, ty_kind: &str, reduced: bool) {
 }
 
 fn one_pool_inner(ctx: &mut Ctx, t: &Ty, v: &V, ty_kind: &str, reduced: bool) {
-    let mut used = [0u64; 9];
+    let mut used = [0u64; NR];
     let mut pool: Vec<Item> = vec![];
     let names: [&'static str; 3] = ["history-1", "history-2", "history-3"];
     for (i, name) in names.iter().enumerate() {
@@ -379,7 +383,7 @@ pub fn run(ctx: &mut Ctx) {
     let n = ctx.scale(1_200, 30_000);
     // every `period`-th pool is over a word of 512 … 4096 bits, with a reduced pool (the Lean
     // model walks lists: a 4096-bit comparison costs ~0.3 s there)
-    let period = ctx.scale(50, 150);
+    let period = ctx.scale(50, 55);
     for it in 0..n {
         let forced_big = it % period == 1;
         let (t, kind) = if forced_big {
